@@ -19,7 +19,7 @@ def run(tier, runner):
     r_si.require(1, 'SmallVectorBase::shrink_impl')
     r_geo.require(2, 'SafeNextCapacity instantiations (both paths)')
     r_one.require(6, 'capacity adjustment call sites')
-    r_gg.require(7, 'grow call sites')
+    r_gg.require(4, 'grow call sites')
     r_gs.require(2, 'the two grow functions')
     r_ew.require(10, 'element-adding operations of the dynamic vectors')
     if r_ew.exact_sites < 1:
